@@ -121,8 +121,8 @@ theorem bsLoop (t : Str) (p : Nat) :
 /-- `escape` fails where neither the text after a first backslash nor the text after the whole run of
     backslashes begins with `{{` -/
 theorem escape_fails_local (atom : Atom) (p : Nat) (s : Str)
-    (h1 : ∀ p', matchStr ['{', '{'] ⟨p', s.tail⟩ = none)
-    (h2 : ∀ p', matchStr ['{', '{'] ⟨p', s.dropWhile isBs⟩ = none) :
+    (h1 : s.head? = some '\\' → ∀ p', matchStr ['{', '{'] ⟨p', s.tail⟩ = none)
+    (h2 : s.head? = some '\\' → ∀ p', matchStr ['{', '{'] ⟨p', s.dropWhile isBs⟩ = none) :
     E (s.length + 12) atom (.rule .r_escape) ⟨p, s⟩ .fail := by
   apply Ev.rule_fail
   show E (s.length + 11) .atomic (.choice (.seq (.seq (.str ['\\']) (.str ['{', '{'])) _)
@@ -139,7 +139,7 @@ theorem escape_fails_local (atom : Atom) (p : Nat) (s : Str)
       have alt1 : E (t.length + 11) .atomic (.seq (.seq (.str ['\\']) (.str ['{', '{'])) (.opt (.str ['{', '{'])))
           ⟨p, '\\' :: t⟩ .fail :=
         Ev.seq_fail1 (F := t.length + 10) (Ev.seq_fail2 (F := t.length + 9) (hstr.weaken (by omega)) (Ev.skip_off (by simp))
-          (Ev.str_fail (h1 (p + 1))))
+          (Ev.str_fail (h1 rfl (p + 1))))
       -- second alternative: the run of backslashes, then no `{{`
       have alt2 : E (t.length + 11) .atomic
           (.seq (.seq (.str ['\\']) (.repOnce (.str ['\\']))) (.posPred (.str ['{', '{']))) ⟨p, '\\' :: t⟩ .fail := by
@@ -160,7 +160,7 @@ theorem escape_fails_local (atom : Atom) (p : Nat) (s : Str)
               Ev.seq_ok (F := t'.length + 6) (Ev.str_ok (F := t'.length + 5) (st' := ⟨p + 1, '\\' :: t'⟩) (by simp [matchStr]))
                 (Ev.skip_off (by simp)) (hrep.weaken (by omega))
             have hdw : ('\\' :: '\\' :: t').dropWhile isBs = t'.dropWhile isBs := by simp [List.dropWhile, isBs]
-            have hno := h2 (p + 2 + (t'.takeWhile isBs).length)
+            have hno := h2 rfl (p + 2 + (t'.takeWhile isBs).length)
             rw [hdw] at hno
             have := Ev.seq_fail2 (F := t'.length + 11) (hinner.weaken (by omega)) (Ev.skip_off (by simp))
               (Ev.posPred_fail (F := t'.length + 10) (Ev.str_fail (F := t'.length + 9) hno))
@@ -182,8 +182,8 @@ theorem escape_fails_local (atom : Atom) (p : Nat) (s : Str)
 theorem escape_fails (atom : Atom) (p : Nat) (s : Str) (h : noOpen s) :
     E (s.length + 12) atom (.rule .r_escape) ⟨p, s⟩ .fail :=
   escape_fails_local atom p s
-    (fun p' => matchOpen_none p' _ (by cases s with | nil => trivial | cons c t => exact noOpen_tail c t h))
-    (fun p' => matchOpen_none p' _ (noOpen_dropWhile _ _ h))
+    (fun _ p' => matchOpen_none p' _ (by cases s with | nil => trivial | cons c t => exact noOpen_tail c t h))
+    (fun _ p' => matchOpen_none p' _ (noOpen_dropWhile _ _ h))
 
 /-- one character of a source without `{{` is one element of `raw_text` -/
 theorem rawElem_step (p : Nat) (c : Char) (t : Str) (h : noOpen (c :: t)) :
